@@ -2,6 +2,7 @@ SPECIFICATION Spec
 CONSTANTS
   MaxMods = 3
   MaxDecls = 1
+  ImportPositions = FALSE
   Dirs <- FlatDirs
 INVARIANTS SequencesConfluent
 CHECK_DEADLOCK FALSE
